@@ -59,6 +59,7 @@ func unitCmd(args []string) {
 	assertsOnly := fs.Bool("assertsonly", false, "")
 	groups := fs.String("groups", "", "clause groups to keep (comma separated labels)")
 	locks := fs.Bool("locks", false, "track lock state and check guard directives (C20)")
+	utier := fs.String("tier", "quick", "quick|thorough")
 	timeout := fs.Int("timeout", 10000, "ms per query")
 	dump := fs.Bool("dump", false, "print the script")
 	irc := fs.Bool("irc", false, "wire the ircserver command table (handler template contracts)")
@@ -97,7 +98,7 @@ func unitCmd(args []string) {
 		stats := map[string]*vc.SolverStat{}
 		var mu sync.Mutex
 		t0 := time.Now()
-		u.Discharge(context.Background(), vc.RunOpts{TimeoutMs: *timeout, Seed: 0, Tier: "quick", OutDir: "/verif/out"}, stats, &mu)
+		u.Discharge(context.Background(), vc.RunOpts{TimeoutMs: *timeout, Seed: 0, Tier: *utier, OutDir: "/verif/out"}, stats, &mu)
 		for _, ob := range u.Obligations() {
 			if *quiet && ob.OK() {
 				continue
